@@ -21,7 +21,12 @@ EXTRA = {"C08-m1": ["C13"], "C06-m1": ["C07"], "C02-m2": ["C06"], "C13-m2": ["C1
          "C14-m2": ["C13"], "C19-m1": ["C05"], "C01-m1": ["C09"], "C17-m2": ["C11"], "C10-m1": [], "C09-m1": [],
          "C08-m3": ["C12"], "C10-m3": ["C12"], "C13-m3": ["C12"], "C08-m4": ["C04"], "C01-m3": ["C03"], "C01-m4": ["C15"], "C03-m3": ["C10"],
          "C13-m4": [], "C15-m3": ["C14"], "C09-m4": ["C08"], "C19-m4": ["C05"], "C19-m3": ["C04"], "C14-m3": ["C13"], "C14-m4": ["C13"],
-         "C16-m3": ["C17"], "C16-m4": ["C17"], "C06-m3": ["C07"], "C06-m4": ["C07"]}
+         "C16-m3": ["C17"], "C16-m4": ["C17"], "C06-m3": ["C07"], "C06-m4": ["C07"],
+         "C01-m5": ["C13", "C15"], "C01-m6": ["C08"], "C03-m5": ["C04"], "C03-m6": ["C10"], "C04-m6": ["C19"], "C05-m6": ["C19"],
+         "C06-m5": ["C07"], "C06-m6": ["C07"], "C07-m5": ["C06"], "C07-m6": ["C06"], "C08-m5": ["C04"], "C08-m6": ["C13"],
+         "C09-m5": ["C13"], "C10-m6": ["C11"], "C11-m5": ["C10"], "C11-m6": ["C05"], "C13-m5": ["C12"], "C13-m6": ["C15"],
+         "C14-m5": ["C13"], "C14-m6": ["C13"], "C15-m6": ["C13"], "C16-m5": ["C05"], "C16-m6": ["C17"], "C17-m5": ["C16"],
+         "C17-m6": ["C16"], "C19-m5": ["C05"], "C19-m6": ["C04"]}
 
 
 def sh(cmd, **kw):
